@@ -1329,6 +1329,35 @@ fn mutex_is_locked_contended() {
     epilogue_mutex(&m);
 }
 
+/// One thread drops its guard while another one calls try_lock(): whoever holds a guard must see
+/// is_locked() == true for as long as it holds it (a lock-free mirror of the flag that the guard's
+/// Drop clears after leaving the critical section would be cleared under the new owner).
+fn mutex_is_locked_handover_v(fair: bool) {
+    let m = Arc::new(GenericMutex::<LoomRaw, Tracked>::new(Tracked::new(), fair));
+    let _ = m.is_locked();
+    let g = m.try_lock().expect("C02: try_lock() on a free mutex failed");
+    assert!(m.is_locked(), "C02: is_locked() is false while a guard is alive");
+    let m1 = m.clone();
+    let h = spawn(move || {
+        if let Some(g2) = m1.try_lock() {
+            assert!(m1.is_locked(), "C02: is_locked() is false while the guard returned by try_lock() is alive");
+            assert!(m1.try_lock().is_none(), "C02: a second guard was handed out while one is alive");
+            assert!(m1.is_locked(), "C02: is_locked() is false while the guard returned by try_lock() is alive");
+            drop(g2);
+        }
+    });
+    drop(g);
+    h.join().unwrap();
+    assert!(!m.is_locked(), "C02: is_locked() is true although every guard has been dropped");
+    epilogue_mutex(&m);
+}
+fn mutex_is_locked_handover_fair() {
+    mutex_is_locked_handover_v(true)
+}
+fn mutex_is_locked_handover_unfair() {
+    mutex_is_locked_handover_v(false)
+}
+
 /// Debug formatting of the borrowed channel and of the shared handles while another thread pushes
 /// into a `Send + !Sync` user buffer under the lock
 fn mpmc_debug_vs_push_exclusive() {
@@ -2279,6 +2308,39 @@ fn mpmc_barger_vs_notified() {
     drop(r);
 }
 
+/// The last sender handle is dropped (implicit close) while a receive future is polled for the
+/// first time: either that poll already sees the closed channel, or the future was registered
+/// in time and close wakes it; it must never be left pending and un-woken on a closed channel.
+macro_rules! close_vs_first_recv_poll {
+    ($name:ident, $mk:expr, $touch:expr, $recv:expr, $props:literal) => {
+        fn $name() {
+            let (tx, rx) = $mk;
+            $touch(&rx);
+            let mut f = Box::pin($recv(&rx));
+            let (w, c) = counting_waker();
+            let h = spawn(move || drop(tx));
+            let first = f.as_mut().poll(&mut Context::from_waker(&w));
+            h.join().unwrap();
+            match first {
+                Poll::Ready(v) => assert!(v.is_none(), concat!($props, ": a receive on an empty channel completed with a value")),
+                Poll::Pending => {
+                    assert!(c.load(Ordering::SeqCst) > 0, concat!($props, ": the channel is closed (last sender dropped) but the pending receive future has not been woken"));
+                    match f.as_mut().poll(&mut Context::from_waker(&w)) {
+                        Poll::Ready(v) => assert!(v.is_none(), concat!($props, ": a receive on an empty closed channel completed with a value")),
+                        Poll::Pending => panic!(concat!($props, ": a receive future stays pending on a closed channel")),
+                    }
+                }
+            }
+            drop(f);
+            drop(rx);
+        }
+    };
+}
+close_vs_first_recv_poll!(state_close_vs_first_recv_poll, sh::generic_state_broadcast_channel::<LoomRaw, u32>(), |rx: &sh::GenericStateReceiver<LoomRaw, u32>| { let _ = rx.try_receive(StateId::new()); }, |rx: &sh::GenericStateReceiver<LoomRaw, u32>| rx.receive(StateId::new()), "C11/C13");
+close_vs_first_recv_poll!(oneshot_close_vs_first_recv_poll, sh::generic_oneshot_channel::<LoomRaw, u32>(), |_rx: &sh::GenericOneshotReceiver<LoomRaw, u32>| {}, |rx: &sh::GenericOneshotReceiver<LoomRaw, u32>| rx.receive(), "C11/C12");
+close_vs_first_recv_poll!(bcast_close_vs_first_recv_poll, sh::generic_oneshot_broadcast_channel::<LoomRaw, u32>(), |_rx: &sh::GenericOneshotBroadcastReceiver<LoomRaw, u32>| {}, |rx: &sh::GenericOneshotBroadcastReceiver<LoomRaw, u32>| rx.receive(), "C11/C12");
+close_vs_first_recv_poll!(mpmc_close_vs_first_recv_poll, sh::generic_channel::<LoomRaw, u32, FixedHeapBuf<u32>>(1), |rx: &sh::GenericReceiver<LoomRaw, u32, FixedHeapBuf<u32>>| { let _ = rx.try_receive(); }, |rx: &sh::GenericReceiver<LoomRaw, u32, FixedHeapBuf<u32>>| rx.receive(), "C10/C11");
+
 /// two threads close the channel: once close() has returned (with either status) on a thread,
 /// a send from that thread must fail
 fn mpmc_double_close() {
@@ -3003,6 +3065,12 @@ const SCENARIOS: &[(&str, &str, Scenario)] = &[
     ("event_setters_race", "wk:C14", event_setters_race),
     ("mpmc_last_receiver_clears", "hook:C11", mpmc_last_receiver_clears),
     ("mpmc_refill_race", "wk:C09", mpmc_refill_race),
+    ("mutex_is_locked_handover_fair", "C02", mutex_is_locked_handover_fair),
+    ("mutex_is_locked_handover_unfair", "C02", mutex_is_locked_handover_unfair),
+    ("state_close_vs_first_recv_poll", "C11,C13", state_close_vs_first_recv_poll),
+    ("oneshot_close_vs_first_recv_poll", "C11,C12", oneshot_close_vs_first_recv_poll),
+    ("bcast_close_vs_first_recv_poll", "C11,C12", bcast_close_vs_first_recv_poll),
+    ("mpmc_close_vs_first_recv_poll", "C10,C11", mpmc_close_vs_first_recv_poll),
     ("mpmc_try_send_race_cap1", "C08,C09", mpmc_try_send_race_cap1),
     ("mpmc_try_send_race_cap2", "C08,C09", mpmc_try_send_race_cap2),
     ("mpmc_cancel_vs_receive_cap0", "wk:C01,C08", mpmc_cancel_vs_receive_cap0),
